@@ -132,6 +132,13 @@ def gen_plan(rng, tier, index, config=None):
             nodes[st["dst"]] = dst_priv
             steps.append(st)
             recent.append(st)
+            if via == "subkey" and priv and path and path[0][1] and st["as_private"][0] is False and r.chance(0.5):
+                # the public half of a hardened child was asked of a private node; now its watch-only copy is asked for
+                # the same hardened child: that must still be refused
+                pc = new_id()
+                steps.append({"op": "public_copy", "src": src, "dst": pc})
+                nodes[pc] = False
+                steps.append({"op": "hfp", "src": pc, "i": path[0][0], "then": _index(r), "via": r.pick(["subkey", "path"])})
         elif op == "rederive" and recent:
             old = r.pick(recent)
             st = dict(old)
@@ -175,12 +182,16 @@ def gen_plan(rng, tier, index, config=None):
         elif op == "kc":
             if not have_kc:
                 steps.append({"op": "kc_new"})
-                steps.append({"op": "kc_add_secret", "src": "n0"})
+                if r.chance(0.6):
+                    # (otherwise the wallet registers paths and looks keys up before it unlocks its root)
+                    steps.append({"op": "kc_add_secret", "src": "n0"})
                 have_kc = True
             k = r.weighted([("add", 6), ("commit", 3), ("crash", 2), ("lookup", 6), ("fault", 2), ("clear", 1),
-                            ("commit_fault", 1)])
+                            ("commit_fault", 1), ("add_secret", 2)])
             privs = sorted(k2 for k2, v in nodes.items() if v)
-            if k == "add":
+            if k == "add_secret":
+                steps.append({"op": "kc_add_secret", "src": r.pick(privs) if privs and r.chance(0.3) else "n0"})
+            elif k == "add":
                 key = r.pick(privs) if privs else "n0"
                 paths = [_path(r, 3, True) for _ in range(r.between(1, 4))]
                 steps.append({"op": "kc_add_paths", "src": key, "paths": paths, "spell": r.pick(["H", "p", "'"]),
